@@ -135,6 +135,12 @@ pub enum Mut {
   SwapPayloadAndFooter,
   /// segment 0 payload / 1 footer; kind 0..15 trailing-bit variant, 16 "=", 17 "==", 18 standard alphabet
   B64Variant(u8, u8),
+  /// put text in front of the token (e.g. its own header once more)
+  Prepend(String),
+  /// insert text at a character position
+  InsertText(u32, String),
+  /// copy `len` characters starting at `start` and insert them at `at` (re-splicing the token with itself)
+  DupRange(u32, u32, u32),
   /// splice with a second authentic token under the same key
   Splice(u8, Box<TokSpec>),
   Multi(Vec<Mut>),
@@ -155,6 +161,9 @@ impl Mut {
       Mut::DropFooterDot => "drop-footer-dot",
       Mut::SwapPayloadAndFooter => "swap-segments",
       Mut::B64Variant(..) => "noncanonical-base64",
+      Mut::Prepend(_) => "prepend",
+      Mut::InsertText(..) => "insert-text",
+      Mut::DupRange(..) => "duplicate-range",
       Mut::Splice(..) => "splice",
       Mut::Multi(_) => "multi-edit",
     }
@@ -302,6 +311,36 @@ pub fn apply(m: &Mut, spec: &TokSpec, t: &str) -> Option<String> {
         let f = fseg?;
         Some(rejoin(&header, &pseg, Some(&b64_variant(&f, *kind)?)))
       }
+    }
+    Mut::Prepend(pre) => {
+      if pre.is_empty() {
+        return None;
+      }
+      Some(format!("{pre}{t}"))
+    }
+    Mut::InsertText(at, ins) => {
+      let chars: Vec<char> = t.chars().collect();
+      let at = (*at as usize).min(chars.len());
+      if ins.is_empty() {
+        return None;
+      }
+      let mut out: String = chars[..at].iter().collect();
+      out.push_str(ins);
+      out.extend(chars[at..].iter());
+      Some(out)
+    }
+    Mut::DupRange(start, len, at) => {
+      let chars: Vec<char> = t.chars().collect();
+      let start = (*start as usize).min(chars.len());
+      let end = (start + *len as usize).min(chars.len());
+      if end <= start {
+        return None;
+      }
+      let at = (*at as usize).min(chars.len());
+      let mut out: String = chars[..at].iter().collect();
+      out.extend(chars[start..end].iter());
+      out.extend(chars[at..].iter());
+      Some(out)
     }
     Mut::Splice(kind, other) => {
       let mut o = (**other).clone();
@@ -462,7 +501,8 @@ pub fn fixed_spec(proto: Proto, layer: Layer, variant: u8) -> TokSpec {
       2 => "{\"k\":[1,2,3],\"s\":\"0123456789abcdefghijklmnop\"}".to_string(),
       n => format!("{{\"v\":{}}}", n),
     },
-    footer: if with_extras { Some("{\"kid\":\"k1\"}".to_string()) } else { None },
+    // footer lengths 13, 14, 12 bytes across variants: base64 segments with 4, 2 and 0 unused trailing bits
+    footer: if with_extras { Some(format!("{{\"kid\":\"k{}\"}}", ["1x", "1xy", "1"][(variant as usize / 2) % 3])) } else { None },
     assertion: if with_extras && proto.has_assertion() { Some("bound-to-user-7".to_string()) } else { None },
     core_payload: None,
   }
@@ -509,6 +549,23 @@ pub fn exhaustive_mutations(spec: &TokSpec, stride: usize) -> Vec<Mut> {
   for s in ["A", "AA", "AAA", "AAAA", ".", "..", ".x", ".Zm9v", "=", "==", ".e30", " ", "\n", "\0"] {
     v.push(Mut::AppendText(s.to_string()));
   }
+  // extensions by exactly 2^8, 2^9, 2^16 characters / bytes (a length folded into fewer bits would not see them)
+  for n in [255usize, 256, 257, 512, 65536] {
+    v.push(Mut::AppendText("A".repeat(n)));
+    v.push(Mut::AppendPayload(vec![0x41u8; n]));
+  }
+  // the token's own parts once more: header(s) in front, header after the header, each segment duplicated
+  let hdr = spec.proto.header();
+  for pre in [hdr.to_string(), hdr.repeat(2), hdr.repeat(3), hdr[..3].to_string(), ".".to_string(), "v4.local.".to_string(), "v2.public.".to_string(), " ".to_string(), "\u{feff}".to_string()] {
+    v.push(Mut::Prepend(pre));
+  }
+  let hl = hdr.len() as u32;
+  v.push(Mut::InsertText(hl, hdr.to_string()));
+  v.push(Mut::InsertText(3, hdr[..3].to_string()));
+  v.push(Mut::DupRange(0, hl, hl));
+  v.push(Mut::DupRange(hl, l - hl, l));
+  v.push(Mut::DupRange(hl, l - hl, hl));
+  v.push(Mut::DupRange(0, l, l));
   for k in [-3, -2, -1, 1, 2, 3] {
     v.push(Mut::MoveFooterDot(k));
   }
@@ -539,9 +596,17 @@ fn simple_mut() -> BoxedStrategy<Mut> {
     1 => (-40i32..40).prop_map(Mut::MoveFooterDot),
     1 => Just(Mut::DropFooterDot),
     1 => Just(Mut::SwapPayloadAndFooter),
+    1 => prop_oneof![Just("v1.local.".to_string()), Just("v2.local.".to_string()), Just("v3.local.".to_string()), Just("v4.local.".to_string()), Just("v1.public.".to_string()), Just("v2.public.".to_string()), Just("v3.public.".to_string()), Just("v4.public.".to_string()), gen::special()].prop_map(Mut::Prepend),
+    1 => (0u32..30, prop_oneof![Just("v4.local.".to_string()), Just(".".to_string()), gen::special(), gen::jsonish(4)]).prop_map(|(a, t)| Mut::InsertText(a, t)),
+    2 => (0u32..700, 1u32..300, 0u32..700).prop_map(|(a, b, c)| Mut::DupRange(a, b, c)),
     2 => (0u8..2, 0u8..19).prop_map(|(s, k)| Mut::B64Variant(s, k)),
   ]
   .boxed()
+}
+
+/// texts whose length sits at the places where a length might be truncated or folded (2^8, 2^16)
+pub fn long_text() -> BoxedStrategy<String> {
+  (any::<u16>(), 0u8..4).prop_map(|(i, f)| gen::sized([191usize, 192, 255, 256, 257, 300, 65535, 65536, 65537, 70_000][pick(i, 10)], f)).boxed()
 }
 
 pub fn tok_spec(proto: Proto, layer: Layer) -> BoxedStrategy<TokSpec> {
@@ -550,8 +615,8 @@ pub fn tok_spec(proto: Proto, layer: Layer) -> BoxedStrategy<TokSpec> {
     gen::bytes32(),
     vec(any::<u8>(), nonce_len),
     gen::jsonish(48),
-    prop_oneof![2 => Just(None), 1 => Just(Some(String::new())), 3 => gen::jsonish(20).prop_map(Some), 1 => gen::unicode(8).prop_map(Some)],
-    prop_oneof![2 => Just(None), 1 => Just(Some(String::new())), 3 => gen::jsonish(20).prop_map(Some)],
+    prop_oneof![20 => Just(None), 10 => Just(Some(String::new())), 30 => gen::jsonish(20).prop_map(Some), 10 => gen::unicode(8).prop_map(Some), 5 => gen::special().prop_map(Some), 2 => long_text().prop_map(Some)],
+    prop_oneof![20 => Just(None), 10 => Just(Some(String::new())), 30 => gen::jsonish(20).prop_map(Some), 5 => gen::unicode(8).prop_map(Some), 5 => gen::special().prop_map(Some), 2 => long_text().prop_map(Some)],
   )
     .prop_map(move |(key_seed, nonce, msg, footer, assertion)| TokSpec { proto, layer, key_seed, nonce, msg, footer, assertion: if proto.has_assertion() { assertion } else { None }, core_payload: None })
     .boxed()
